@@ -88,7 +88,7 @@ UNITS = UNITS + arms_units("C10")
 VERIFIED_CALLEES = ()
 LEVEL = "other"
 TECHNIQUE = "contract-based deductive verification of the validate-what-you-return call site (VCs from the real AST, ghost events) + bounded run-time contract: validate(result), parse_object(result) == result, dump-reparse-dump byte identity"
-LEVEL_TEXT = 'Verified: _parse_common completes subcommands and class defaults, serves a pending print_config request, applies links and then validates exactly the configuration it returns; parse_object and validate/check_values re-check every key by its own action; every arm of adapt_typehints returns a value that already conforms as it is (fixpoint clauses of the leaf, Tuple/Set, List, Dict, Literal, Enum, registered-type arms; dispatch unit), RegisteredType.is_value_of_type; re-parsing a result goes through adapt_class_type / discard_init_args_on_class_path_change with the defaults as previous value without importing arguments of another class. The composition adapt(adapt(v,T),T) == adapt(v,T) for nested types end to end: bounded only (507 types x 8 channels: validate(result), parse_object(result) == result, dump-reparse-dump byte identity).'
+LEVEL_TEXT = "Verified: _parse_common completes subcommands and class defaults, serves a pending print_config request, applies links and then validates exactly the configuration it returns; parse_object and validate/check_values re-check every key by its own action; every arm of adapt_typehints returns a value that already conforms as it is (fixpoint clauses of the leaf, Tuple/Set, List, Dict, Literal, Enum, registered-type arms; dispatch unit), RegisteredType.is_value_of_type; re-parsing a result goes through adapt_class_type / discard_init_args_on_class_path_change with the defaults as previous value without importing arguments of another class. The composition adapt(adapt(v,T),T) == adapt(v,T) for nested types end to end: bounded only (507 types x 8 channels: validate(result), parse_object(result) == result, dump-reparse-dump byte identity). Also: the static walk discard_init_args_on_class_path_change used by merge_config, the dataclass arm's frame (nothing of a parse is remembered in the action), normalize_default (a declared default is stored in config form once)."
 LEVEL_NOTE = "under construction"
 EXPLANATION = "under construction"
 ASSUMPTIONS = []
